@@ -308,66 +308,332 @@ theorem asCoded_cross_family (rules : List Rule) (k : Key) (x : IP)
 /-! ## The sanitizer of the public option; CIDR ranges -/
 
 
-/-- `sanitizeExternalIPs` accepts exactly the lists without unparsable entries that keep at least
-one address. -/
-theorem sanitizeExts_ok (l acc : List IPTok) (hbad : l.contains .bad = false)
-    (hne : acc ≠ [] ∨ ∃ ip, IPTok.ok ip ∈ l) : ∃ out, sanitizeExts l acc = .ok out := by
-  induction l generalizing acc with
-  | nil =>
-    rcases hne with h | ⟨ip, h⟩
-    · unfold sanitizeExts
-      have : acc.isEmpty = false := by cases acc <;> simp_all
-      simp [this]
-    · cases h
-  | cons t ts ih =>
-    simp only [List.contains_cons, Bool.or_eq_false_iff] at hbad
-    cases t with
-    | bad => simp at hbad
-    | blank =>
-      unfold sanitizeExts
-      apply ih acc hbad.2
-      rcases hne with h | ⟨ip, h⟩
-      · exact Or.inl h
-      · right
-        rcases List.mem_cons.mp h with h | h
-        · cases h
-        · exact ⟨ip, h⟩
-    | ok ip =>
-      unfold sanitizeExts
-      split
-      · apply ih acc hbad.2
-        left
-        intro h
-        subst h
-        simp at *
-      · apply ih _ hbad.2
-        left; simp
-
-theorem sanitizeExts_bad (l acc : List IPTok) (hbad : l.contains .bad = true) :
-    sanitizeExts l acc = .error .invalid := by
+/-- The loop of `sanitizeExternalIPs` fails on (and only on) an unparsable entry. -/
+theorem sanitizeExtsLoop_bad (l acc : List IPTok) (hbad : l.contains .bad = true) :
+    sanitizeExtsLoop l acc = .error .invalid := by
   induction l generalizing acc with
   | nil => simp at hbad
   | cons t ts ih =>
     cases t with
     | bad => rfl
     | blank =>
-      unfold sanitizeExts
+      unfold sanitizeExtsLoop
       apply ih
       simpa using hbad
     | ok ip =>
-      unfold sanitizeExts
+      unfold sanitizeExtsLoop
       have : ts.contains .bad = true := by simpa using hbad
       split <;> exact ih _ this
 
-theorem sanitizeExts_none (l : List IPTok) (h : ∀ t ∈ l, t = .blank) :
-    sanitizeExts l [] = .error .invalid := by
-  induction l with
-  | nil => rfl
+/-- Without an unparsable entry the loop returns the addresses of the list (and of `acc`), nothing else. -/
+theorem sanitizeExtsLoop_ok (l acc : List IPTok) (hbad : l.contains .bad = false) :
+    ∃ out, sanitizeExtsLoop l acc = .ok out ∧
+      ∀ t, t ∈ out ↔ t ∈ acc ∨ (t ∈ l ∧ ∃ ip, t = .ok ip) := by
+  induction l generalizing acc with
+  | nil => exact ⟨acc.reverse, rfl, by simp⟩
   | cons t ts ih =>
-    have := h t List.mem_cons_self
-    subst this
-    unfold sanitizeExts
-    exact ih (fun x hx => h x (List.mem_cons_of_mem _ hx))
+    simp only [List.contains_cons, Bool.or_eq_false_iff] at hbad
+    cases t with
+    | bad => simp at hbad
+    | blank =>
+      unfold sanitizeExtsLoop
+      obtain ⟨out, ho, hm⟩ := ih acc hbad.2
+      refine ⟨out, ho, fun t => ?_⟩
+      rw [hm t]
+      constructor
+      · rintro (h | ⟨h, ip, rfl⟩)
+        · exact Or.inl h
+        · exact Or.inr ⟨List.mem_cons_of_mem _ h, ip, rfl⟩
+      · rintro (h | ⟨h, ip, rfl⟩)
+        · exact Or.inl h
+        · rcases List.mem_cons.mp h with h | h
+          · cases h
+          · exact Or.inr ⟨h, ip, rfl⟩
+    | ok ip =>
+      unfold sanitizeExtsLoop
+      split
+      · rename_i hc
+        obtain ⟨out, ho, hm⟩ := ih acc hbad.2
+        refine ⟨out, ho, fun t => ?_⟩
+        rw [hm t]
+        have hin : IPTok.ok ip ∈ acc := by simpa using hc
+        constructor
+        · rintro (h | ⟨h, ip', rfl⟩)
+          · exact Or.inl h
+          · exact Or.inr ⟨List.mem_cons_of_mem _ h, ip', rfl⟩
+        · rintro (h | ⟨h, ip', rfl⟩)
+          · exact Or.inl h
+          · rcases List.mem_cons.mp h with h | h
+            · rw [h]; exact Or.inl hin
+            · exact Or.inr ⟨h, ip', rfl⟩
+      · obtain ⟨out, ho, hm⟩ := ih (.ok ip :: acc) hbad.2
+        refine ⟨out, ho, fun t => ?_⟩
+        rw [hm t]
+        constructor
+        · rintro (h | ⟨h, ip', rfl⟩)
+          · rcases List.mem_cons.mp h with h | h
+            · subst h; exact Or.inr ⟨List.mem_cons_self, ip, rfl⟩
+            · exact Or.inl h
+          · exact Or.inr ⟨List.mem_cons_of_mem _ h, ip', rfl⟩
+        · rintro (h | ⟨h, ip', rfl⟩)
+          · exact Or.inl (List.mem_cons_of_mem _ h)
+          · rcases List.mem_cons.mp h with h | h
+            · rw [h]; exact Or.inl List.mem_cons_self
+            · exact Or.inr ⟨h, ip', rfl⟩
+
+/-- `sanitizeExternalIPs` accepts EXACTLY the lists without an unparsable entry that are empty or keep
+at least one address; what it returns are the addresses of the list (no blank, no unparsable entry). -/
+theorem sanitizeExts_ok_iff (l : List IPTok) :
+    (∃ out, sanitizeExts l = .ok out) ↔ l.contains .bad = false ∧ (l = [] ∨ ∃ ip, IPTok.ok ip ∈ l) := by
+  unfold sanitizeExts
+  cases hb : l.contains .bad with
+  | true => rw [sanitizeExtsLoop_bad l [] hb]; simp
+  | false =>
+    obtain ⟨out, ho, hm⟩ := sanitizeExtsLoop_ok l [] hb
+    rw [ho]
+    simp only [true_and]
+    cases l with
+    | nil => simp
+    | cons t ts =>
+      cases out with
+      | nil =>
+        simp only [List.isEmpty_nil, List.isEmpty_cons, Bool.not_false, Bool.and_self, if_true]
+        constructor
+        · rintro ⟨o, h⟩; cases h
+        · rintro (h | ⟨ip, h⟩)
+          · cases h
+          · exact absurd ((hm (.ok ip)).mpr (Or.inr ⟨h, ip, rfl⟩)) (by simp)
+      | cons x xs =>
+        simp only [List.isEmpty_cons, Bool.false_and, Bool.false_eq_true, if_false]
+        constructor
+        · intro _
+          right
+          rcases (hm x).mp List.mem_cons_self with h | ⟨h, ip, rfl⟩
+          · cases h
+          · exact ⟨ip, h⟩
+        · intro _; exact ⟨_, rfl⟩
+
+theorem sanitizeExts_mem (l out : List IPTok) (h : sanitizeExts l = .ok out) :
+    ∀ t, t ∈ out ↔ t ∈ l ∧ ∃ ip, t = .ok ip := by
+  have hb : l.contains .bad = false := ((sanitizeExts_ok_iff l).mp ⟨out, h⟩).1
+  obtain ⟨o, ho, hm⟩ := sanitizeExtsLoop_ok l [] hb
+  unfold sanitizeExts at h
+  rw [ho] at h
+  by_cases hc : (o.isEmpty && !l.isEmpty) = true
+  · simp [hc] at h
+  · simp only [hc, if_false] at h
+    cases h
+    intro t
+    rw [hm t]
+    simp
+
+/-- the empty list is accepted (and stays empty): the documented deny / no-op rule is configurable -/
+theorem sanitizeExts_nil : sanitizeExts [] = .ok [] := rfl
+
+/-- a non-empty list of blank entries only is rejected -/
+theorem sanitizeExts_allBlank (l : List IPTok) (hne : l ≠ []) (h : ∀ t ∈ l, t = .blank) :
+    sanitizeExts l = .error .invalid := by
+  have hno : ¬ ∃ out, sanitizeExts l = .ok out := by
+    rw [sanitizeExts_ok_iff]
+    rintro ⟨_, h' | ⟨ip, h'⟩⟩
+    · exact hne h'
+    · cases h _ h'
+  unfold sanitizeExts at *
+  split
+  · rename_i e he
+    have hb : l.contains .bad = false := by
+      cases hc : l.contains .bad with
+      | false => rfl
+      | true =>
+        have : IPTok.bad ∈ l := by simpa using hc
+        cases h _ this
+    obtain ⟨o, ho, _⟩ := sanitizeExtsLoop_ok l [] hb
+    rw [ho] at he
+    cases he
+  · split
+    · rfl
+    · rename_i out he hc
+      exact absurd ⟨out, by rw [he]; simp [hc]⟩ hno
+
+/-- `sanitizeAddressRewriteRule`: what is accepted, and what the accepted rule is. -/
+theorem sanitizeRule_spec (r : Rule) :
+    ((∃ r', sanitizeRule r = .ok r') ↔
+      (r.ext.contains .bad = false ∧ (r.ext = [] ∨ ∃ ip, IPTok.ok ip ∈ r.ext) ∧ r.loc ≠ .bad ∧ r.mode ≤ 2))
+    ∧ (∀ r', sanitizeRule r = .ok r' →
+        (∀ t, t ∈ r'.ext ↔ t ∈ r.ext ∧ ∃ ip, t = .ok ip) ∧ (r.ext = [] → r'.ext = [])
+        ∧ r'.mode = (if r.mode = 0 then defaultMode r.ctype else r.mode)
+        ∧ r'.ctype = r.ctype ∧ r'.iface = r.iface ∧ r'.cidr = r.cidr ∧ r'.loc = r.loc ∧ r'.nets = r.nets) := by
+  unfold sanitizeRule
+  cases he : sanitizeExts r.ext with
+  | error e =>
+    have hno : ¬ (r.ext.contains .bad = false ∧ (r.ext = [] ∨ ∃ ip, IPTok.ok ip ∈ r.ext)) := by
+      rw [← sanitizeExts_ok_iff]
+      rintro ⟨out, ho⟩
+      rw [ho] at he
+      cases he
+    constructor
+    · constructor
+      · rintro ⟨r', h⟩; cases h
+      · rintro ⟨h1, h2, _⟩; exact absurd ⟨h1, h2⟩ hno
+    · intro r' h; cases h
+  | ok out =>
+    have hok := (sanitizeExts_ok_iff r.ext).mp ⟨out, he⟩
+    have hmem := sanitizeExts_mem r.ext out he
+    have hnil : r.ext = [] → out = [] := by
+      intro h
+      rw [h] at he
+      cases he
+      rfl
+    simp only
+    by_cases hl : r.loc = .bad
+    · simp [hl]
+    · simp only [hl, if_false]
+      by_cases h0 : r.mode = 0
+      · simp only [h0, if_true]
+        refine ⟨⟨fun _ => ⟨hok.1, hok.2, hl, by omega⟩, fun _ => ⟨_, rfl⟩⟩, ?_⟩
+        intro r' h
+        cases h
+        exact ⟨hmem, hnil, rfl, rfl, rfl, rfl, rfl, rfl⟩
+      · simp only [h0, if_false]
+        by_cases h12 : r.mode = 1 ∨ r.mode = 2
+        · simp only [h12, if_true]
+          refine ⟨⟨fun _ => ⟨hok.1, hok.2, hl, by omega⟩, fun _ => ⟨_, rfl⟩⟩, ?_⟩
+          intro r' h
+          cases h
+          exact ⟨hmem, hnil, rfl, rfl, rfl, rfl, rfl, rfl⟩
+        · simp only [h12, if_false]
+          constructor
+          · constructor
+            · rintro ⟨r', h⟩; cases h
+            · rintro ⟨_, _, _, hm⟩; omega
+          · intro r' h; cases h
+
+def ruleInDomainOpt (r : Rule) : Bool :=
+  !((r.ext.contains .blank && !allBlank r) || r.mode > 2 || (inert r && illFormed r))
+
+theorem allBlank_iff (r : Rule) : allBlank r = true ↔ r.ext ≠ [] ∧ ∀ t ∈ r.ext, t = .blank := by
+  unfold allBlank
+  cases h : r.ext with
+  | nil => simp
+  | cons t ts => simp
+
+theorem sanitizeRule_error_rejects (r : Rule) (hd : ruleInDomainOpt r = true) (e : Err)
+    (h : sanitizeRule r = .error e) :
+    ((unsupportedRule r || (!inert r && illFormed r)) || allBlank r) = true := by
+  have hno : ¬ ∃ r', sanitizeRule r = .ok r' := by rintro ⟨r', h'⟩; rw [h'] at h; cases h
+  rw [(sanitizeRule_spec r).1] at hno
+  simp only [ruleInDomainOpt, Bool.not_eq_true', Bool.or_eq_false_iff, Bool.and_eq_false_iff] at hd
+  obtain ⟨⟨hbl, hmode⟩, hin⟩ := hd
+  have hmode : r.mode ≤ 2 := by simpa using hmode
+  have hill : illFormed r = true → (!inert r && illFormed r) = true := by
+    intro hi
+    rcases hin with h | h
+    · simp [h, hi]
+    · rw [hi] at h; cases h
+  by_cases hbad : r.ext.contains .bad = true
+  · have : illFormed r = true := by simp only [illFormed, hbad, Bool.or_true]
+    simp [hill this]
+  · by_cases hloc : r.loc = .bad
+    · have : illFormed r = true := by simp only [illFormed, hloc, beq_self_eq_true, Bool.or_true, Bool.true_or]
+      simp [hill this]
+    · have hbad' : r.ext.contains .bad = false := by simpa using hbad
+      have hext : ¬ (r.ext = [] ∨ ∃ ip, IPTok.ok ip ∈ r.ext) := fun hx => hno ⟨hbad', hx, hloc, hmode⟩
+      have hab : allBlank r = true := by
+        rw [allBlank_iff]
+        refine ⟨fun hx => hext (Or.inl hx), fun t ht => ?_⟩
+        cases t with
+        | blank => rfl
+        | bad => exact absurd (by simpa using ht) hbad
+        | ok ip => exact absurd (Or.inr ⟨ip, ht⟩) hext
+      simp [hab]
+
+theorem sanitizeRule_ok_same (r r' : Rule) (h : sanitizeRule r = .ok r') :
+    r'.ext.contains .blank = false ∧ allBlank r = false
+    ∧ (unsupportedRule r' || (!inert r' && illFormed r')) = (unsupportedRule r || (!inert r && illFormed r)) := by
+  obtain ⟨hmem, _, _, hct, _, hci, hlo, hne⟩ := (sanitizeRule_spec r).2 r' h
+  obtain ⟨hbad, hext, _, _⟩ := (sanitizeRule_spec r).1.mp ⟨r', h⟩
+  have hb1 : r'.ext.contains .blank = false := by
+    cases hc : r'.ext.contains .blank with
+    | false => rfl
+    | true =>
+      have : IPTok.blank ∈ r'.ext := by simpa using hc
+      obtain ⟨_, ip, hip⟩ := (hmem _).mp this
+      cases hip
+  have hb2 : r'.ext.contains .bad = false := by
+    cases hc : r'.ext.contains .bad with
+    | false => rfl
+    | true =>
+      have : IPTok.bad ∈ r'.ext := by simpa using hc
+      obtain ⟨_, ip, hip⟩ := (hmem _).mp this
+      cases hip
+  have hab : allBlank r = false := by
+    cases hc : allBlank r with
+    | false => rfl
+    | true =>
+      obtain ⟨hne', hall⟩ := (allBlank_iff r).mp hc
+      rcases hext with hx | ⟨ip, hx⟩
+      · exact absurd hx hne'
+      · cases hall _ hx
+  refine ⟨hb1, hab, ?_⟩
+  have h1 : unsupportedRule r' = unsupportedRule r := by simp [unsupportedRule, docType, hct]
+  have h2 : inert r' = inert r := by simp [inert, netsAllow, hne]
+  have h3 : illFormed r' = illFormed r := by unfold illFormed; rw [hci, hlo, hbad, hb2]
+  rw [h1, h2, h3]
+
+theorem sanitizeAll_spec (rules : List Rule) (ho : outsideDomainOn .option rules = false) :
+    (∀ e, sanitizeAll rules = .error e → optionRejects rules = true) ∧
+    (∀ clean, sanitizeAll rules = .ok clean →
+      clean.all (fun r => !r.ext.contains .blank) = true ∧ rules.any allBlank = false ∧ docRejects clean = docRejects rules) := by
+  induction rules with
+  | nil =>
+    constructor
+    · intro e h; cases h
+    · intro clean h; cases h; simp [docRejects]
+  | cons r rs ih =>
+    have hr : ruleInDomainOpt r = true := by
+      simp only [outsideDomainOn, List.any_cons, Bool.or_eq_false_iff] at ho
+      simp only [ruleInDomainOpt, Bool.not_eq_true']
+      simpa using ho.1
+    have hrs : outsideDomainOn .option rs = false := by
+      simp only [outsideDomainOn, List.any_cons, Bool.or_eq_false_iff] at ho
+      exact ho.2
+    obtain ⟨ih1, ih2⟩ := ih hrs
+    unfold sanitizeAll
+    cases h1 : sanitizeRule r with
+    | error e =>
+      constructor
+      · intro e' _
+        have := sanitizeRule_error_rejects r hr e h1
+        simp only [optionRejects, docRejects, List.any_cons]
+        simp only [Bool.or_eq_true] at this ⊢
+        rcases this with h | h
+        · exact Or.inl (Or.inl h)
+        · exact Or.inr (Or.inl h)
+      · intro clean h; cases h
+    | ok r' =>
+      obtain ⟨hb, hab, hsame⟩ := sanitizeRule_ok_same r r' h1
+      cases h2 : sanitizeAll rs with
+      | error e =>
+        constructor
+        · intro e' _
+          have := ih1 e h2
+          simp only [optionRejects, docRejects, List.any_cons, Bool.or_eq_true] at this ⊢
+          rcases this with h | h
+          · exact Or.inl (Or.inr h)
+          · exact Or.inr (Or.inr h)
+        · intro clean h; cases h
+      | ok l =>
+        obtain ⟨i1, i2, i3⟩ := ih2 l h2
+        constructor
+        · intro e h; cases h
+        · intro clean h
+          cases h
+          refine ⟨?_, ?_, ?_⟩
+          · simp only [List.all_cons, Bool.and_eq_true] at i1 ⊢
+            exact ⟨by rw [hb]; rfl, i1⟩
+          · simp [List.any_cons, hab, i2]
+          · simp only [docRejects, List.any_cons] at i3 ⊢
+            rw [hsame, i3]
 
 /-- `IPNet.Contains` as an address range: same family and `lo ≤ ip < lo + 2^(width-bits)` where
 `lo` is the base address with its host bits cleared. -/
